@@ -200,3 +200,66 @@ Proof.
 Qed.
 Example factorial_correct_nonvacuous : in_T true 32 (fact 12) = true /\ in_T false 64 (fact 20) = true /\ in_T true 32 (fact 13) = false.
 Proof. vm_compute. auto. Qed.
+
+(* gtx sqrt(int) / sqrt(uint) (Newton iteration of Graphics Gems p. 387), EVERY 32-bit value, partial correctness: the invariant is
+   floor(sqrt x) <= CurrentAnswer <= x / 2; NextTrial + x / NextTrial never leaves the type; when the loop leaves, CurrentAnswer = floor(sqrt x).
+   `_partial`: that the model's fuel (64 iterations) is never exhausted is NOT proved here (the real loop has no fuel and its variable strictly
+   decreases above floor(sqrt x) >= 1, so it leaves); the sweep below 65536 and the correspondence check cover the fuel. *)
+Lemma newton_ge x c : 0 <= x -> 0 < c -> Z.sqrt x <= (c + x / c) / 2.
+Proof.
+  intros Hx Hc. pose proof (Z.sqrt_spec x Hx) as [S1 S2]. pose proof (Z.sqrt_nonneg x) as S0. set (s := Z.sqrt x) in *.
+  pose proof (Z.div_mod x c ltac:(lia)) as D. pose proof (Z.mod_pos_bound x c Hc) as M. set (q := x / c) in *. set (r := x mod c) in *.
+  assert (Hq : 0 <= q) by (subst q; apply Z.div_pos; lia).
+  assert (A1 : 4 * (c * (q + 1)) <= (c + q + 1) * (c + q + 1)) by (pose proof (Z.square_nonneg (c - q - 1)); nia).
+  assert (H4 : 2 * s <= c + q).
+  { destruct (Z_lt_le_dec (c + q) (2 * s)) as [Lt|Ge]; [exfalso | exact Ge].
+    assert (A2 : (c + q + 1) * (c + q + 1) <= (2 * s) * (2 * s)) by (apply Z.mul_le_mono_nonneg; lia). nia. }
+  apply Z.div_le_lower_bound; lia.
+Qed.
+Lemma newton_exit x c : 0 <= x -> 0 < c -> c <= (c + x / c) / 2 -> c <= Z.sqrt x.
+Proof.
+  intros Hx Hc H. pose proof (Z.div_mod x c ltac:(lia)) as D. pose proof (Z.mod_pos_bound x c Hc) as M. set (q := x / c) in *. set (r := x mod c) in *.
+  assert (c <= q) by (pose proof (Z.div_mod (c + q) 2 ltac:(lia)); pose proof (Z.mod_pos_bound (c + q) 2 ltac:(lia)); lia).
+  apply Z.sqrt_le_square; [lia | lia | nia].
+Qed.
+Lemma quot_le_sqrt2 x c : 2 <= x -> Z.sqrt x <= c -> x / c <= Z.sqrt x + 2.
+Proof.
+  intros Hx Hc. pose proof (Z.sqrt_spec x ltac:(lia)) as [S1 S2]. assert (S0 : 1 <= Z.sqrt x) by (apply Z.sqrt_le_square; lia). set (s := Z.sqrt x) in *.
+  apply Z.div_le_upper_bound; [lia|]. nia.
+Qed.
+Theorem sqrt_loop_partial sg x : 2 <= x -> in_T sg 32 x = true -> forall fuel c, Z.sqrt x <= c <= x / 2 ->
+  sqrt_loop fuel sg x c = -2 \/ sqrt_loop fuel sg x c = Z.sqrt x.
+Proof.
+  intros Hx HT fuel. assert (S0 : 1 <= Z.sqrt x) by (apply Z.sqrt_le_square; lia).
+  assert (SB : Z.sqrt x < 65536). { apply in_T_bounds in HT. apply Z.sqrt_lt_square; [lia | lia |]. unfold rangeT in HT. destruct sg; change (2 ^ (32 - 1)) with 2147483648 in HT; change (2 ^ 32) with 4294967296 in HT; lia. }
+  induction fuel as [|k IH]; intros c Hc; [left; reflexivity|].
+  change (sqrt_loop (S k) sg x c) with (let next := Z.shiftr (norm sg 32 (c + Z.quot x c)) 1 in if next <? c then sqrt_loop k sg x next else c). cbv zeta.
+  rewrite Z.quot_div_nonneg by lia. pose proof (quot_le_sqrt2 x c Hx ltac:(lia)) as Q.
+  assert (Q0 : 0 <= x / c) by (apply Z.div_pos; lia).
+  assert (R : norm sg 32 (c + x / c) = c + x / c).
+  { apply norm_id; [lia|]. apply in_T_of. apply in_T_bounds in HT. unfold rangeT in *.
+    pose proof (Z.div_mod x 2 ltac:(lia)). pose proof (Z.mod_pos_bound x 2 ltac:(lia)).
+    destruct sg; change (2 ^ (32 - 1)) with 2147483648 in *; change (2 ^ 32) with 4294967296 in *; lia. }
+  rewrite R, Z.shiftr_div_pow2 by lia. change (2 ^ 1) with 2.
+  pose proof (newton_ge x c ltac:(lia) ltac:(lia)) as G.
+  destruct (Z.ltb_spec ((c + x / c) / 2) c) as [L|L].
+  - apply IH. lia.
+  - right. pose proof (newton_exit x c ltac:(lia) ltac:(lia) L). lia.
+Qed.
+Lemma half_ge_sqrt x : 2 <= x -> Z.sqrt x <= x / 2.
+Proof. intros Hx. pose proof (Z.sqrt_spec x ltac:(lia)) as [S1 S2]. assert (S0 : 1 <= Z.sqrt x) by (apply Z.sqrt_le_square; lia). apply Z.div_le_lower_bound; [lia|]. destruct (Z.eq_dec (Z.sqrt x) 1); nia. Qed.
+(* gtx sqrt(int) / sqrt(uint), EVERY 32-bit value: whenever the Newton loop leaves (the model's fuel 64 is not exhausted: result <> -2) the result is the floor square root *)
+Theorem sqrt_int_partial x : in_T true 32 x = true -> 0 <= x -> sqrt_int x = -2 \/ sqrt_int x = Z.sqrt x.
+Proof.
+  intros HT Hx. unfold sqrt_int. destruct (Z.leb_spec x 1) as [L|L].
+  - right. assert (x = 0 \/ x = 1) as [-> | ->] by lia; reflexivity.
+  - apply sqrt_loop_partial; [lia | exact HT |]. rewrite Z.shiftr_div_pow2 by lia. change (2 ^ 1) with 2. split; [apply half_ge_sqrt; lia | lia].
+Qed.
+Theorem sqrt_uint_partial x : in_T false 32 x = true -> sqrt_uint x = -2 \/ sqrt_uint x = Z.sqrt x.
+Proof.
+  intros HT. assert (Hx : 0 <= x) by (apply in_T_bounds in HT; unfold rangeT in HT; lia). unfold sqrt_uint. destruct (Z.leb_spec x 1) as [L|L].
+  - right. assert (x = 0 \/ x = 1) as [-> | ->] by lia; reflexivity.
+  - apply sqrt_loop_partial; [lia | exact HT |]. rewrite Z.shiftr_div_pow2 by lia. change (2 ^ 1) with 2. split; [apply half_ge_sqrt; lia | lia].
+Qed.
+Example sqrt_partial_nonvacuous : sqrt_int 2147483647 = 46340 /\ sqrt_uint 4294967295 = 65535.
+Proof. vm_compute. split; reflexivity. Qed.
